@@ -182,7 +182,17 @@ claim("C03",
       "evaluation of the script). Props/C03Vram.lean: segments_vram_end, final_vram_end (for every emitted segment the image has numbers "
       "aS <= aE <= dN with the output section .<segment> recorded at [aS, aE) and - for a name the script assigns once - the VRAM end symbol "
       "equal to dN rounded up to the segment end alignment) and final_vram_end_aligned (the VRAM end lies behind the allocatable output "
-      "section and is a multiple of the requested end alignment: the C09 clause for the VRAM end)." + IMG,
+      "section and is a multiple of the requested end alignment: the C09 clause for the VRAM end). Props/C03Follows.lean: final_follows_segment "
+      "(an emitted segment whose follows_segment names an emitted segment listed before it has .<segment> recorded at the value of that "
+      "segment's VRAM end symbol in the image, for a symbol the script assigns once) and final_fixed_symbol (fixed_symbol s given to the linker "
+      "with --defsym s=x and never assigned by the script: .<segment> is recorded at x). Props/C03Default.lean: final_default_placement (a "
+      "segment with none of the four fields is recorded at the VRAM end symbol of the segment emitted last before it - 0 for the first - rounded "
+      "up to its start alignment and to the alignment of the output section). Props/FinalSecs.lean + Props/C03Start.lean: execK_secCount (a script "
+      "records at most as many output sections of a name as it has headers of it), addr_symbol_image, final_vram_start (the VRAM start symbol "
+      "of an emitted segment is the address of its output section in the image, and start <= start + size <= VRAM end, for symbols assigned "
+      "once and a header that occurs once - decidable hypotheses on the text, evaluated on every linked case: evidence final_hypothesis). "
+      "Props/C03Src.lean (translator tie): the header line the model prints is assembled from the literals of write_segment_start in "
+      "/repo's current linker_writer.rs under the conditions of the code (header_src)." + IMG,
       "Lean 4 proofs of the emitted address statements + real-link oracle for their meaning", "DESIGN.md §8 C03")
 claim("C04",
       "Lean theorems (Props/C04.lean): sections_rom — in every multi-segment script the statements touching __romPos together with all output "
